@@ -45,6 +45,9 @@ CHECKS = {
  "C15": ("model_checking", "E1+E3", "exhaustive enumeration of the finite gate space (55 operators x input counts x dtype placements x nil) on the real ValidateInputs, plus exhaustive interleavings of <Get, Init, Apply> lookup histories against isolated results",
          "For every name of opset13.GetOpNames(): every input count 0..max+2 and dtype placement (full 15^n product for arity <= 2; every homogeneous row with all single- and a fixed menu of two-position deviations otherwise) must be rejected with an *ops.InputError exactly when the operator's own declaration says so - never a panic, never an out-of-range index into a short constraint table - and accepted lists must come back padded with nil to the maximum with the supplied tensors pointer-identical and untouched. 120 unregistered names must give ErrUnsupportedOperator. For 22 operator/attribute specs all 20 interleavings of two lookups and (thorough: all 1680, quick: every 7th) of three lookups are executed; each Apply must equal its isolated result.",
          "Trusted: the operator's own GetMin/GetMax/GetInputTypeConstraints as the declaration the gate must enforce; isolated execution as the differential oracle for lookup independence.", "DESIGN.md §3 C15"),
+ "C18": ("fault_enumeration", "E5", "exhaustive byte-level fault enumeration (every truncation offset, every single-byte substitution) and field-level structural fault enumeration of seed models through the real loader under recover()",
+         "Around 30 seed models (the repository's samples incl. the zip and the invalid mnist file, plus generated models covering every initializer type/encoding and attribute kind) every prefix and every single-byte substitution (all 256 values for small seeds) is loaded with NewModelFromBytes under recover(), plus a structural fault menu on every initializer, node, attribute and value-info field; loading must return a model or an error, never panic. Every opset version in {-1,0..25,2^31,2^63-1} in six import arrangements must load iff the highest version is 13 and otherwise fail with ErrUnsupportedOpsetVersion; 120 unregistered operator names at each position of a 3-node graph must make Run fail with ErrUnsupportedOperator and no outputs.",
+         "Trusted: recover()-based panic detection (a fatal runtime error such as stack exhaustion would abort the process and is reported as a harness failure). 'All byte strings' is covered as the 1-fault neighbourhood of ~30 seeds, not 256^n.", "DESIGN.md §3 C18"),
 }
 NA_REASON = "check not built yet in this session (see DESIGN.md §7 order of construction); decidable by bounded exhaustive exploration, to be claimed once its explorer exists"
 def main():
